@@ -188,7 +188,9 @@ func isNullGo(v reflect.Value) bool {
 		if v.Type() == timeType {
 			return timeOf(v).IsZero() // the zero instant
 		}
-		return false // a struct value is always present
+		// a non-pointer struct on an optional field: its zero value (every field zero: "" whatever
+		// its data pointer, nil slices and pointers) is the null, like for every other non-pointer type
+		return v.IsZero()
 	case reflect.Float32, reflect.Float64:
 		// -0.0 is a value: only the all-zero bit pattern is the zero that maps to null
 		// (C01 demands bit-identical floats, which a null could not give back)
